@@ -66,7 +66,7 @@ var plans = map[string]PropPlan{
 	"C10": {
 		Quick:     []Plan{{Scenario: "slot.reuse", PB: 2, DB: 0}},
 		Thorough:  []Plan{{Scenario: "slot.reuse", PB: 3, DB: 0}},
-		QuickSecs: 90, ThoroughSecs: 1200,
+		QuickSecs: 150, ThoroughSecs: 1200,
 		Assumptions: schedAssume,
 	},
 	"C11": {
